@@ -566,12 +566,39 @@ func ruleXZWriterFormat(c *Ctx, r *Report, prefix string) {
 		flagOK := map[string]bool{}
 		for _, b := range theCtx.GB(fn) {
 			for _, ins := range b.Instrs {
-				if call, isC := callTo(ins, putUvarint); isC {
+				if call, isC := callTo(ins, putUvarint); isC && b.Parent() == fn {
 					switch {
 					case roleFieldLoad(fC)(call.Call.Args[1]):
 						order = append(order, "c@"+fmt.Sprint(call.Pos()))
 					case roleFieldLoad(fU)(call.Call.Args[1]):
 						order = append(order, "u@"+fmt.Sprint(call.Pos()))
+					}
+				}
+				// a new helper that encodes one of its parameters with putUvarint, called once per field
+				if call, isC := ins.(*ssa.Call); isC && b.Parent() == fn {
+					if hp := call.Call.StaticCallee(); hp != nil && theCtx.IsNew(hp) {
+						for _, hb := range hp.Blocks {
+							for _, hi := range hb.Instrs {
+								pc, isP := callTo(hi, putUvarint)
+								if !isP {
+									continue
+								}
+								prm, isPrm := stripConv(pc.Call.Args[1]).(*ssa.Parameter)
+								if !isPrm {
+									continue
+								}
+								for i, q := range hp.Params {
+									if q == prm && i < len(call.Call.Args) {
+										switch {
+										case roleFieldLoad(fC)(call.Call.Args[i]):
+											order = append(order, "c@"+fmt.Sprint(call.Pos()))
+										case roleFieldLoad(fU)(call.Call.Args[i]):
+											order = append(order, "u@"+fmt.Sprint(call.Pos()))
+										}
+									}
+								}
+							}
+						}
 					}
 				}
 				if bo, isB := ins.(*ssa.BinOp); isB && bo.Op == token.OR {
